@@ -173,7 +173,7 @@ pub fn generate(run_seed: u64) -> Config {
         // fewer codons, each under one presentation per offset residue
         for _ in 0..96 {
             let gap_ok = rng.chance(1, 7);
-            let codon = letters(&mut rng, 3, gap_ok);
+            let codon = if rng.chance(1, 2) { miri_scenario::exact_codon(&mut rng) } else { letters(&mut rng, 3, gap_ok) };
             for residue in 0..16 {
                 let mut pres = gen_pres(&mut rng, 3);
                 if pres.kind != PresKind::Parsed && pres.kind != PresKind::Static {
@@ -202,7 +202,74 @@ pub fn generate(run_seed: u64) -> Config {
         ops.push(Op::BadLen { syms: row.to_string(), pres });
     }
 
-    rng.shuffle(&mut ops);
+    // bursts: short sequences of *related* operations kept adjacent in the linearised history, so
+    // that hidden state carried from one call to the next (a memoised last answer, a cache keyed
+    // by almost-the-codon) meets the inputs most likely to collide: the same bits at another
+    // length, one symbol widened or narrowed, the same codon under another presentation, the
+    // reverse lookup of the answer
+    let mut blocks: Vec<Vec<Op>> = ops.into_iter().map(|o| vec![o]).collect();
+    let n_bursts = if mode == "sweep" { 192 } else { 96 };
+    for _ in 0..n_bursts {
+        let base = if rng.chance(1, 2) {
+            miri_scenario::exact_codon(&mut rng)
+        } else {
+            letters(&mut rng, 3, false)
+        };
+        let mut burst = vec![Op::Amino { codon: base.clone(), pres: gen_pres(&mut rng, 3) }];
+        for _ in 0..rng.range(1, 3) {
+            let b = base.as_bytes();
+            let related = match rng.below(7) {
+                0 => {
+                    // same leading bits, one more symbol (gap = all-zero bits)
+                    let ext = format!("{base}{}", if rng.chance(2, 3) { '-' } else { IUPAC_LETTERS[rng.below(16)] as char });
+                    Op::BadLen { pres: gen_pres(&mut rng, 4), syms: ext }
+                }
+                1 => Op::BadLen { pres: gen_pres(&mut rng, 2), syms: base[..2].to_string() },
+                2 => {
+                    let ext = format!("-{base}");
+                    Op::BadLen { pres: gen_pres(&mut rng, 4), syms: ext }
+                }
+                3 => {
+                    // one position widened to a superset or narrowed to a subset
+                    let i = rng.below(3);
+                    let cur = oracle::base_set(b[i]);
+                    let other: Vec<u8> = IUPAC_LETTERS[..15]
+                        .iter()
+                        .copied()
+                        .filter(|l| {
+                            let s = oracle::base_set(*l);
+                            s != cur && (s & cur == cur || s & cur == s)
+                        })
+                        .collect();
+                    let mut m = b.to_vec();
+                    if !other.is_empty() {
+                        m[i] = *rng.pick(&other);
+                    }
+                    Op::Amino { codon: String::from_utf8(m).unwrap(), pres: gen_pres(&mut rng, 3) }
+                }
+                4 => Op::Amino { codon: base.clone(), pres: gen_pres(&mut rng, 3) },
+                5 => {
+                    let a = match oracle::expect_amino(&[b[0], b[1], b[2]]) {
+                        ExpectAmino::Exactly(x) => x,
+                        _ => *rng.pick(AMINO_LETTERS),
+                    };
+                    Op::Codon { amino: (a as char).to_string() }
+                }
+                _ => {
+                    // a rotation / reversal of the same three symbols
+                    let m = if rng.chance(1, 2) { vec![b[2], b[1], b[0]] } else { vec![b[1], b[2], b[0]] };
+                    Op::Amino { codon: String::from_utf8(m).unwrap(), pres: gen_pres(&mut rng, 3) }
+                }
+            };
+            burst.push(related);
+        }
+        if rng.chance(1, 2) {
+            burst.push(Op::Amino { codon: base.clone(), pres: gen_pres(&mut rng, 3) });
+        }
+        blocks.push(burst);
+    }
+    rng.shuffle(&mut blocks);
+    let mut ops: Vec<Op> = blocks.into_iter().flatten().collect();
 
     // force the kind of the very first operation (which initialisation path runs cold)
     let want = |op: &Op| match (first_kind, op) {
@@ -677,7 +744,7 @@ pub mod miri_scenario {
         pub ops: Vec<Op>,
     }
 
-    fn exact_codon(rng: &mut Rng) -> String {
+    pub fn exact_codon(rng: &mut Rng) -> String {
         // rejection-sample a gap-free codon with an exact answer (about one in nine)
         loop {
             let c = letters(rng, 3, false);
